@@ -263,3 +263,17 @@ func TestC01_R_DefaultChunkers(t *testing.T) {
 		}
 	}
 }
+
+func TestC01_R_ChunkSizeLimits(t *testing.T) {
+	for _, ck := range []string{"size-1048575", "size-1048576"} {
+		data := lcgBytes(1048576*2+1, 9, 0)
+		st := NewStore()
+		root, _, err := buildFile(st, data, ck, 2)
+		if err != nil {
+			t.Fatalf("C01 chunk size limits: build with %s: %v", ck, err)
+		}
+		if err := c01CheckRead(st, root, data, "Reify", 65536); err != nil {
+			t.Fatalf("C01 chunk size limits %s: %v", ck, err)
+		}
+	}
+}
